@@ -418,7 +418,7 @@ func (p *c09) Run(w *lib.Worker, idx int, r *lib.Rand) lib.Case {
 	if p.session == nil {
 		p.session = sut.NewSpecSession()
 	}
-	g := &gen.SpecGen{R: r, Tag: fmt.Sprintf("e%d", idx), NoRefs: idx%3 == 2}
+	g := &gen.SpecGen{R: r, Tag: fmt.Sprintf("e%d", idx%6), NoRefs: idx%3 == 2}
 	doc := g.Clean()
 	// every fourth case: the planted schema carries a format which only a caller-supplied registry knows,
 	// and the specification is validated with that registry (NewSpecValidator(schema, formats))
